@@ -29,6 +29,9 @@ def generate(prop, rng, seed, index, tier):
     if rng.random() < 0.75:
         d = rng.choice(['\n', '\n', '||', 'abc', 'aa', 'ab', ';'])
         alpha = ['x', 'y'] + list(d) * 2
+        if rng.random() < 0.3:
+            # characters some string methods treat as line ends: to this source they are ordinary text
+            alpha += rng.sample(['\x0b', '\x0c', '\x1c', '\x1e', '\x85', '\u2028', '\u2029', '\r', ' ', '\t'], rng.randrange(1, 4))
         n = rng.randrange(0, 60 if big else 36)
         text = ''.join(rng.choice(alpha) for _ in range(n))
         if rng.random() < 0.6:
@@ -70,7 +73,7 @@ def generate(prop, rng, seed, index, tier):
         if rng.random() < 0.2:
             # the source opens the file by name and the writer's chunks are byte strings: cuts may fall inside a
             # multi-byte character
-            alpha2 = alpha + ['é', '€', 'ß']
+            alpha2 = [c for c in alpha if c != '\r'] + ['é', '€', 'ß']     # (a text-mode open() translates '\\r')
             text2 = ''.join(rng.choice(alpha2) for _ in range(rng.randrange(1, 24))) + (d if rng.random() < 0.7 else '')
             raw = text2.encode('utf-8')
             cuts2 = sorted(rng.randrange(0, len(raw) + 1) for _ in range(rng.randrange(1, 8)))
